@@ -99,6 +99,7 @@ func (c *Counter) Subscribe(subscribers ...func(oldValue, newValue int)) (unsubs
 }
 
 func (c *Counter) set(newValue int) (oldValue int) {
+	verifYield("counter-lock")
 	c.valueMutex.Lock()
 	defer c.valueMutex.Unlock()
 
@@ -112,6 +113,7 @@ func (c *Counter) set(newValue int) (oldValue int) {
 }
 
 func (c *Counter) update(delta int) (newValue int) {
+	verifYield("counter-lock")
 	c.valueMutex.Lock()
 	defer c.valueMutex.Unlock()
 
